@@ -11,6 +11,7 @@ pub mod crashfs;
 pub mod walcodec;
 pub mod aggworld;
 pub mod http;
+pub mod sortworld;
 
 pub use rng::Rng;
 
